@@ -317,6 +317,13 @@ Qed.
 Definition invs_wf (d : db) : Prop :=
   NoDup (map (fun i => (i_rp i, i_rc i)) (invs d)) /\
   forall i, In i (invs d) -> rc_exists d (i_rc i) = true /\ 1 <= i_step i.
+(* what is actually needed (step_size is not: amount mod 0 = amount in Coq, so two amounts with
+   `amount mod 0 = 0` are both 0); RI + inv_keys_nodup of Proofs/Defs.v give it for reachable states *)
+Definition invs_wf0 (d : db) : Prop :=
+  NoDup (map (fun i => (i_rp i, i_rc i)) (invs d)) /\
+  forall i, In i (invs d) -> rc_exists d (i_rc i) = true.
+Lemma invs_wf_weaken d : invs_wf d -> invs_wf0 d.
+Proof. intros [H1 H2]. split; [assumption|]. intros i Hi. apply (H2 i Hi). Qed.
 
 Lemma find_inv_l_unique l i : NoDup (map (fun i => (i_rp i, i_rc i)) l) -> In i l -> find_inv_l l (i_rp i) (i_rc i) = Some i.
 Proof.
@@ -340,44 +347,45 @@ Definition slot_fits (d : db) (k : Z * Z) (amount : Z) : Prop :=
   | Some i => i_min i <= amount /\ amount mod i_step i = 0 /\ 0 <= amount
   | None => False
   end.
-Lemma has_room_fits d p rc amount : invs_wf d -> 0 <= amount -> has_room d p rc amount = true -> slot_fits d (p, rc) amount.
+Lemma has_room_fits d p rc amount : invs_wf0 d -> 0 <= amount -> has_room d p rc amount = true -> slot_fits d (p, rc) amount.
 Proof.
   intros [Hnd _] Hpos H. apply has_room_spec in H. destruct H as [i [Hi [E1 [E2 [_ [[Hmin _] Hstep]]]]]].
   unfold slot_fits, find_inv. cbn [fst snd]. rewrite <- E1, <- E2, (find_inv_l_unique _ i Hnd Hi). auto.
 Qed.
-Lemma slot_fits_add d k x y : invs_wf d -> slot_fits d k x -> slot_fits d k y -> slot_fits d k (x + y).
+Lemma slot_fits_add d k x y : slot_fits d k x -> slot_fits d k y -> slot_fits d k (x + y).
 Proof.
-  intros [_ Hwf]. unfold slot_fits. destruct (find_inv d (fst k) (snd k)) as [i|] eqn:F; [|tauto].
-  apply find_inv_l_Some' in F. destruct F as [Hi _]. destruct (Hwf i Hi) as [_ Hs].
+  unfold slot_fits. destruct (find_inv d (fst k) (snd k)) as [i|]; [|tauto].
   intros [H1 [H2 H3]] [H4 [H5 H6]]. repeat split; [lia| |lia].
-  rewrite (Z.add_mod x y (i_step i)) by lia. rewrite H2, H5. cbn [Z.add]. apply Z.mod_0_l. lia.
+  destruct (Z.eq_dec (i_step i) 0) as [E|Hs].
+  - rewrite E, Zmod_0_r in *. lia.
+  - rewrite (Z.add_mod x y (i_step i)) by assumption. rewrite H2, H5. cbn [Z.add]. apply Z.mod_0_l. assumption.
 Qed.
 
-Lemma sum_into_fits d acc x : invs_wf d ->
+Lemma sum_into_fits d acc x :
   (forall y, In y acc -> slot_fits d (rr_rp y, rr_rc y) (rr_amt y)) -> slot_fits d (pl_key x) (snd x) ->
   forall y, In y (sum_into acc x) -> slot_fits d (rr_rp y, rr_rc y) (rr_amt y).
 Proof.
-  intro Hwf. destruct x as [[p rc] a]. unfold pl_key. cbn [fst snd].
+  destruct x as [[p rc] a]. unfold pl_key. cbn [fst snd].
   induction acc as [|z r IH]; cbn [sum_into fst snd]; intros H Hx y.
   - intros [<-|[]]. exact Hx.
   - destruct ((rr_rp z =? p) && (rr_rc z =? rc)) eqn:E; cbn [In].
     + apply andb_true_iff in E. destruct E as [E1 E2]. apply Z.eqb_eq in E1, E2. subst p rc.
       intros [<-|Hy]; [|apply H; right; assumption]. cbn [rr_rp rr_rc rr_amt].
-      apply slot_fits_add; [assumption|apply H; left; reflexivity|assumption].
+      apply slot_fits_add; [apply H; left; reflexivity|assumption].
     + intros [<-|Hy]; [apply H; left; reflexivity|]. apply IH; [intros w Hw; apply H; right; assumption|assumption|assumption].
 Qed.
-Lemma fold_sum_fits d l : invs_wf d -> forall acc,
+Lemma fold_sum_fits d l : forall acc,
   (forall y, In y acc -> slot_fits d (rr_rp y, rr_rc y) (rr_amt y)) ->
   (forall x, In x l -> slot_fits d (pl_key x) (snd x)) ->
   forall y, In y (fold_left sum_into l acc) -> slot_fits d (rr_rp y, rr_rc y) (rr_amt y).
 Proof.
-  intro Hwf. induction l as [|x l IH]; intros acc Ha Hl; cbn [fold_left]; [assumption|].
+  induction l as [|x l IH]; intros acc Ha Hl; cbn [fold_left]; [assumption|].
   apply IH; [|intros w Hw; apply Hl; right; assumption].
-  apply sum_into_fits; [assumption|assumption|apply Hl; left; reflexivity].
+  apply sum_into_fits; [assumption|apply Hl; left; reflexivity].
 Qed.
 
 (* every entry of an admissible assignment's candidate passes the per-record tests of _check_capacity_exceeded *)
-Lemma asg_entry_claimable v q d a : invs_wf d -> amounts_nonneg q -> admissible v q d a ->
+Lemma asg_entry_claimable v q d a : invs_wf0 d -> amounts_nonneg q -> admissible v q d a ->
   forall x, In x (cr_rrs (creq_of q a)) ->
   exists i, find_inv d (rr_rp x) (rr_rc x) = Some i /\
             i_min i <= rr_amt x <= i_max i /\ rr_amt x mod i_step i = 0 /\
@@ -385,7 +393,7 @@ Lemma asg_entry_claimable v q d a : invs_wf d -> amounts_nonneg q -> admissible 
 Proof.
   intros Hwf Hpos Ha x Hx.
   assert (Hfit : slot_fits d (rr_rp x, rr_rc x) (rr_amt x)).
-  { unfold creq_of, summed in Hx. cbn [cr_rrs] in Hx. revert x Hx. apply fold_sum_fits; [assumption|intros ? []|].
+  { unfold creq_of, summed in Hx. cbn [cr_rrs] in Hx. revert x Hx. apply fold_sum_fits; [intros ? []|].
     intros pl Hpl. assert (Hnn : 0 <= snd pl) by (eapply placements_nonneg; eassumption).
     destruct Ha as [_ [Hun [Hsu _]]]. unfold placements in Hpl. apply in_app_iff in Hpl. destruct Hpl as [Hpl|Hpl].
     - apply in_map_iff in Hpl. destruct Hpl as [[p [rc amount]] [<- Hin]]. unfold pl_key. cbn [fst snd] in *.
@@ -446,8 +454,8 @@ Qed.
    MISSING for `h_alloc_put ... = 204`: the consumer creation (ensure_consumer), the provider / consumer
    generation compare-and-swap of _set_allocations, and that removing the fresh consumer's (non-existent)
    allocations leaves the usage unchanged. *)
-Theorem c02_claimable_partial : forall v q d c l,
-  invs_wf d -> amounts_nonneg q -> In c (spec_candidates v q d) ->
+Theorem c02_claimable_partial0 : forall v q d c l,
+  invs_wf0 d -> amounts_nonneg q -> In c (spec_candidates v q d) ->
   NoDup (map areq_key l) ->
   (forall a, In a l -> exists x, In x (cr_rrs c) /\ q_rp a = rr_rp x /\ q_rc a = rr_rc x /\ q_amt a = rr_amt x) ->
   check_capacity d l = Ok tt.
@@ -471,3 +479,10 @@ Proof.
     apply memZ_refl_in. apply in_map. assumption. }
   rewrite H2. apply check_loop_ok; [assumption|intros ? ? []|assumption].
 Qed.
+
+Theorem c02_claimable_partial : forall v q d c l,
+  invs_wf d -> amounts_nonneg q -> In c (spec_candidates v q d) ->
+  NoDup (map areq_key l) ->
+  (forall a, In a l -> exists x, In x (cr_rrs c) /\ q_rp a = rr_rp x /\ q_rc a = rr_rc x /\ q_amt a = rr_amt x) ->
+  check_capacity d l = Ok tt.
+Proof. intros v q d c l H. apply c02_claimable_partial0. apply invs_wf_weaken. assumption. Qed.
